@@ -547,6 +547,7 @@ func judgeRace(res *core.Result, prop string, p *RacePlan, targets []string, rl 
 			decided = min(decided, cr.endT)
 		}
 	}
+	early := 0
 	for k := 1; k < len(started); k++ {
 		prev, cur := started[k-1], started[k]
 		if cur.startT >= decided { // started at or after the decision: no stagger required
@@ -558,12 +559,21 @@ func judgeRace(res *core.Result, prop string, p *RacePlan, targets []string, rl 
 			}
 			continue
 		}
-		justified := false
+		// An attempt may start before ConcurrencyDelay has passed since the
+		// previous start only on account of a failure, and every failure
+		// accounts for at most one such early start (a failed attempt is no
+		// longer concurrent; it does not void the stagger for good): the
+		// number of early starts so far must not exceed the number of
+		// failures that had returned before this start (harness sequence
+		// numbers: a real happens-before).
+		early++
+		failures := 0
 		for _, f := range calls {
-			if !f.ok && f != cur && f.endT >= prev.startT && f.endT <= cur.startT {
-				justified = true
+			if !f.ok && f != cur && f.ended && f.endSeq < cur.startSeq {
+				failures++
 			}
 		}
+		justified := early <= failures
 		if justified {
 			res.Probe("failure_wakes_feeder")
 			continue
